@@ -38,6 +38,25 @@ from typing import Callable, Dict, List, Optional, Set
 _FUNCS = (ast.FunctionDef, ast.AsyncFunctionDef)
 _LEAVE = (ast.Return, ast.Raise, ast.Continue, ast.Break)
 _fresh = itertools.count()   # reset by normal_form: temporaries of all passes and rounds get distinct numbers
+# facts about the tree being normalised (set by sa/alpha.py before each call): names that are `async def` everywhere they are
+# defined (calling one only *creates* a coroutine) and classes whose __init__ only stores its parameters
+CREATION = {"async": frozenset(), "ctors": frozenset()}
+
+
+def _creates_only(e) -> bool:
+    """`f(args)` with f a coroutine function and every argument pure or a trivial constructor of pure arguments: evaluating it
+    runs no user code and cannot fail, so the statement may move next to the `await` that consumes it."""
+    if not (isinstance(e, ast.Call) and isinstance(e.func, ast.Name) and e.func.id in CREATION["async"]):
+        return False
+
+    def ok(a):
+        if isinstance(a, ast.Starred):
+            return ok(a.value)
+        if is_pure(a):
+            return True
+        return isinstance(a, ast.Call) and isinstance(a.func, ast.Name) and a.func.id in CREATION["ctors"] and all(ok(x) for x in a.args) and all(ok(k.value) for k in a.keywords)
+
+    return all(ok(a) for a in e.args) and all(k.arg is not None and ok(k.value) for k in e.keywords)
 
 
 def is_pure(e) -> bool:
@@ -478,6 +497,9 @@ def _early(stmt, node) -> bool:
         if isinstance(e, ast.Await):
             ev(e.value)
             return False
+        if isinstance(e, ast.Yield):
+            ev(e.value)   # the operand is evaluated before the generator suspends
+            return False
         if isinstance(e, ast.Subscript):
             return ev(e.value) and ev(e.slice)
         if isinstance(e, ast.UnaryOp):
@@ -542,6 +564,14 @@ def _inline_temps(fn):
                         del stmts[i]
                         changed = True
                         continue
+                    # a coroutine created just before the `try` whose first statement awaits it: creating it cannot fail, so it
+                    # may as well be created where it is awaited
+                    if isinstance(b, ast.Try) and b.body and _creates_only(a.value):
+                        use = _first_use_is_early(b.body[0], a.targets[0].id)
+                        if use is not None and _replace_node(b.body[0], use, a.value):
+                            del stmts[i]
+                            changed = True
+                            continue
                 i += 1
             return stmts
 
@@ -780,7 +810,7 @@ def _inline_helpers(fn, helpers: Dict[str, ast.AST], in_class: bool):
 
     def bind(call, h) -> Optional[Dict[str, ast.expr]]:
         a = h.args
-        if a.vararg or a.kwarg or a.kwonlyargs or getattr(a, "posonlyargs", None) or any(isinstance(x, ast.Starred) for x in call.args) or any(k.arg is None for k in call.keywords):
+        if a.kwarg or a.kwonlyargs or getattr(a, "posonlyargs", None) or any(isinstance(x, ast.Starred) for x in call.args) or any(k.arg is None for k in call.keywords):
             return None
         names = [x.arg for x in a.args]
         if in_class and names and names[0] in ("self", "cls"):
@@ -788,7 +818,20 @@ def _inline_helpers(fn, helpers: Dict[str, ast.AST], in_class: bool):
         defaults = dict(zip(names[len(names) - len(a.defaults):], a.defaults)) if a.defaults else {}
         m: Dict[str, ast.expr] = {}
         if len(call.args) > len(names):
-            return None
+            if not a.vararg or not all(is_pure(x) for x in call.args[len(names):]):
+                return None
+            # `*rest` collects the extra positional arguments: only ever used as `*rest` in a call (spliced back below)
+            uses = [n_ for n_ in ast.walk(h) if isinstance(n_, ast.Name) and n_.id == a.vararg.arg]
+            starred = [n_ for n_ in ast.walk(h) if isinstance(n_, ast.Starred) and isinstance(n_.value, ast.Name) and n_.value.id == a.vararg.arg]
+            if len(uses) != len(starred):
+                return None
+            m[a.vararg.arg] = ast.Tuple(elts=list(call.args[len(names):]), ctx=ast.Load())
+        elif a.vararg:
+            uses = [n_ for n_ in ast.walk(h) if isinstance(n_, ast.Name) and n_.id == a.vararg.arg]
+            starred = [n_ for n_ in ast.walk(h) if isinstance(n_, ast.Starred) and isinstance(n_.value, ast.Name) and n_.value.id == a.vararg.arg]
+            if len(uses) != len(starred):
+                return None
+            m[a.vararg.arg] = ast.Tuple(elts=[], ctx=ast.Load())
         for n, v in zip(names, call.args):
             m[n] = v
         for k in call.keywords:
@@ -801,6 +844,63 @@ def _inline_helpers(fn, helpers: Dict[str, ast.AST], in_class: bool):
                     return None
                 m[n] = defaults[n]
         return m
+
+    def splice(node):
+        """`f(a, *(x, y))` left by substituting a `*rest` parameter is `f(a, x, y)`."""
+        for c in ast.walk(node):
+            if isinstance(c, ast.Call) and any(isinstance(x, ast.Starred) and isinstance(x.value, ast.Tuple) for x in c.args):
+                new_args = []
+                for x in c.args:
+                    if isinstance(x, ast.Starred) and isinstance(x.value, ast.Tuple):
+                        new_args.extend(x.value.elts)
+                    else:
+                        new_args.append(x)
+                c.args = new_args
+        return node
+
+    def generator_shape(h):
+        """A generator that is one loop yielding one expression per turn as its last act: (prelude statements, the loop) or None."""
+        if not isinstance(h, ast.FunctionDef):
+            return None
+        g0 = copy.deepcopy(h)
+        g0.decorator_list = []
+        _strip(g0)
+        if not g0.body or not isinstance(g0.body[-1], ast.For) or g0.body[-1].orelse:
+            return None
+        pre, loop = g0.body[:-1], g0.body[-1]
+        ys = [n_ for n_ in ast.walk(g0) if isinstance(n_, (ast.Yield, ast.YieldFrom))]
+        last = loop.body[-1] if loop.body else None
+        if len(ys) != 1 or not (isinstance(last, ast.Expr) and last.value is ys[0] and isinstance(ys[0], ast.Yield) and ys[0].value is not None):
+            return None
+        if any(isinstance(n_, (ast.Return, ast.Try, ast.With, ast.AsyncWith) + _FUNCS + (ast.Lambda, ast.Await)) for n_ in ast.walk(g0) if n_ is not g0):
+            return None
+        if not all(isinstance(p_, ast.Assign) for p_ in pre):
+            return None
+        return pre, loop
+
+    def fuse_generator(h, call):
+        """(prelude, loop target, loop iterable, loop body before the yield, yielded expression), parameters substituted and the
+        helper's own names made fresh - or None."""
+        shp = generator_shape(h)
+        if shp is None:
+            return None
+        m = bind(call, h)
+        if m is None or not all(is_pure(v) or isinstance(v, ast.Tuple) and all(is_pure(x) for x in v.elts) for v in m.values()):
+            return None
+        pre, loop = shp
+        holder = ast.Module(body=pre + [loop], type_ignores=[])
+        assigned = {n_.id for n_ in ast.walk(holder) if isinstance(n_, ast.Name) and isinstance(n_.ctx, ast.Store)}
+        if assigned & set(m):
+            return None
+        k = next(counter)
+        ren = {n_: f"_g{k}_{n_}" for n_ in assigned}
+        body = [splice(_subst(s_, m)) for s_ in holder.body]
+        for s_ in body:
+            for n_ in ast.walk(s_):
+                if isinstance(n_, ast.Name) and n_.id in ren:
+                    n_.id = ren[n_.id]
+        loop2 = body[-1]
+        return body[:-1], loop2.target, loop2.iter, loop2.body[:-1], loop2.body[-1].value.value
 
     def target_of(call):
         if budget[0] <= 0:
@@ -868,7 +968,7 @@ def _inline_helpers(fn, helpers: Dict[str, ast.AST], in_class: bool):
             else:
                 return None
         ren = {n: (direct[n] if n in direct else f"_h{k}_{n}") for n in assigned}
-        body = [_subst(s, sub) for s in g.body]
+        body = [splice(_subst(s, sub)) for s in g.body]
         for s in body:
             for n in ast.walk(s):
                 if isinstance(n, ast.Name) and n.id in ren:
@@ -902,6 +1002,36 @@ def _inline_helpers(fn, helpers: Dict[str, ast.AST], in_class: bool):
         while stmts:
             s = stmts.pop(0)
             done = False
+            # a loop over a generator helper: the helper's loop with this loop's body after what it yields
+            if isinstance(s, ast.For) and not s.orelse and isinstance(s.iter, ast.Call) and budget[0] > 0:
+                h = target_of(s.iter)
+                fused = fuse_generator(h, s.iter) if h is not None else None
+                if fused is not None:
+                    pre, tgt, it, before, yielded = fused
+                    budget[0] -= 1
+                    new_loop = ast.For(target=tgt, iter=it, body=before + [ast.Assign(targets=[s.target], value=yielded)] + s.body, orelse=[])
+                    stmts = pre + [new_loop] + stmts
+                    continue
+            # `*helper(...)` / `list(helper(...))` of a generator helper that only yields: the comprehension it spells
+            if budget[0] > 0:
+                for c in [n for n in ast.walk(s) if isinstance(n, ast.Call)]:
+                    h = target_of(c)
+                    if h is None:
+                        continue
+                    par = [n for n in ast.walk(s) if isinstance(n, ast.Starred) and n.value is c] or \
+                        [n for n in ast.walk(s) if isinstance(n, ast.Call) and isinstance(n.func, ast.Name) and n.func.id == "list" and len(n.args) == 1 and n.args[0] is c]
+                    if not par:
+                        continue
+                    fused = fuse_generator(h, c)
+                    if fused is None or fused[0] or fused[3]:
+                        continue
+                    _, tgt, it, _, yielded = fused
+                    comp = ast.ListComp(elt=yielded, generators=[ast.comprehension(target=tgt, iter=it, ifs=[], is_async=0)])
+                    budget[0] -= 1
+                    if isinstance(par[0], ast.Starred):
+                        par[0].value = comp
+                    else:
+                        _replace_node(s, par[0], comp)
             # a helper call buried in a statement whose earlier sub-expressions are pure is first given a statement of its own
             whole = getattr(s, "value", None) if isinstance(s, (ast.Assign, ast.Return, ast.Expr)) else None
             whole = whole.value if isinstance(whole, ast.Await) else whole
